@@ -42,7 +42,8 @@ CHECKS.update({
              'over 7 offsets are bug-hunting only (not exhaustible within budget).',
         note='Trusted: the AST->z3 translator (validated on a concrete grid against the real functions on every run), z3, CrossHair\'s '
              'pure-Python datetime model, the DTv/TDv contract model of datetime/timedelta used by E2. Out: adjust-*-to-timezone beyond the '
-             'bug-hunting offsets, |year| > 2.7e6 under CrossHair, XSD 1.0 BCE leap-year numbering.',
+             'bug-hunting offsets, |year| > 2.7e6 under CrossHair, XSD 1.0 BCE leap-year numbering. Differences across the datetime range limits '
+             '(years 9998..10001, 1, 2, -1, -2) are included.',
         technique='AST->z3 translation of calendar kernels vs civil-calendar reference (unsat) + CrossHair symbolic execution of the datatype classes',
         design='DESIGN.md §4 C11'),
     'C13': dict(
@@ -52,7 +53,7 @@ CHECKS.update({
              'inductive step). The installed category tables are compared with unicodedata.category for every code point and every '
              'category as QF_BV range-disjunction queries; partition/union laws for every version that ships tables; block '
              'disjointness for all 32 installable versions.',
-        note='Trusted: CrossHair int/list models, z3. The invariant preserved by add() is the weak one (sorted, non-overlapping); merged '
+        note='String arguments with one-character ranges are included. Trusted: CrossHair int/list models, z3. The invariant preserved by add() is the weak one (sorted, non-overlapping); merged '
              'canonical form after add() is known finding C13-add-unmerged; U+FEFF block overlap in Unicode 2.0-2.1.8 is known finding '
              'C13-blocks-feff. CharacterClass add/discard/negation per escape class and a mutation history (no shared state between '
              'instances) are included. Out: historical UCD equality.',
@@ -82,7 +83,7 @@ CHECKS['C10'] = dict(
          'XSD value range of each of the 13 integer types, for every integer. Constructor / cast / castable agreement and binary '
          'casts on symbolic strings run under CrossHair as bug-hunting only.',
     note='Trusted: z3 regex theory, CPython sre parser, the XSD lexical regexes transcribed in harness/c10.py, AST->z3 translator. Known '
-         'finding C10-datetime-is-valid. Out: name types, QName/NOTATION, list types, canonical forms of doubles, casting table '
+         'findings C10-datetime-is-valid, C10-unicode-whitespace-digits. Whitespace-collapsed boolean values and the sign of zero are included. Out: name types, QName/NOTATION, list types, canonical forms of doubles, casting table '
          'beyond the sampled paths.',
     technique='z3 regex-language inclusion of datatype patterns vs XSD lexical spaces + AST->z3 translation of Integer bounds + CrossHair bug-hunting',
     design='DESIGN.md §4 C10')
@@ -115,7 +116,9 @@ CHECKS['C15'] = dict(
          'compared with the Python list/dict model, with FOAY0001/FOAY0002 exactly outside the bounds, and with the operand re-read '
          'after each call to show it is unchanged.',
     note='Trusted: CrossHair int/list/dict models. Map keys restricted to small integer ranges (hashing a symbolic key realises it). '
-         'Out: nested maps/arrays, NaN/mixed-type key identity, combine/reject merge policies, node and function members.',
+         'Keys of 7 types incl. NaN and values of not comparable types are included (xs:date / xs:dayTimeDuration first keys: bug-hunting). '
+         'Known findings C15-boolean-numeric-key, C15-date-time-key-collision. Out: maps holding xs:date and xs:time keys together '
+         '(CrossHair\'s dict model compares keys with == linearly), node and function members.',
     technique='SMT-based symbolic execution (CrossHair/z3) of map:/array: templates vs list/dict model; operand-unchanged re-read',
     design='DESIGN.md §4 C15')
 CHECKS['C16'] = dict(
@@ -125,7 +128,7 @@ CHECKS['C16'] = dict(
          'symbolically with captured values, arguments and sequences of <= 3 unbounded integers and compared with the direct-call '
          'expansion computed in Python.',
     note='Trusted: CrossHair int/list models. Programs are enumerated, values symbolic; sort with a collation argument, independent '
-         'partial applications and lexical scoping at the call site are included. Known finding C16-partial-of-partial. Out: recursion '
+         'partial applications and lexical scoping at the call site are included. Closures passed into partially applied higher-order functions keep their bindings. Known finding C16-partial-of-partial. Out: recursion '
          'through named user functions, function items crossing parser instances.',
     technique='SMT-based symbolic execution (CrossHair/z3) of enumerated function-item programs vs direct-call expansion',
     design='DESIGN.md §4 C16')
@@ -151,7 +154,8 @@ CHECKS['C18'] = dict(
          'matched against the registered return type.',
     note='Trusted: CrossHair models; the reference type table in harness/c18.py. Types are enumerated, values symbolic. Out: schema '
          'types, deep function tests. map(K,V)/array(T)/function(*) tests and kind tests on element/attribute/text/comment nodes are '
-         'included; known finding C18-kindtest-instance-of.',
+         'included, as are function tests on references below their maximum arity, duration component return types and treat as with '
+         'map()/array()/function() tests; known finding C18-kindtest-instance-of.',
     technique='SMT-based symbolic execution (CrossHair/z3), one generated condition per (carrier, type); z3 over the subtype table',
     design='DESIGN.md §4 C18')
 CHECKS['C01'] = dict(
@@ -202,7 +206,9 @@ CHECKS['C03'] = dict(
          'fixed expressions exactly like a fresh instance; the same for EVERY whole source of length <= 1 over printable ASCII. No call '
          'hangs: collation-failure histories on a stub locale module (installed locales chosen by the solver) leave the only lock free.',
     note='Trusted: CrossHair models. Out and stated: arbitrary source strings beyond lexeme bodies (the tokenizer regex is out of reach '
-         'for symbolic text), RecursionError, documents as context, comment bodies and braced URIs only as bug-hunting.',
+         'for symbolic text), documents as context beyond the edge-source table, comment bodies and braced URIs only as bug-hunting. A table of 37 '
+         'edge sources (failed =>, literals beyond conversion limits, huge doubles, language tags, occurrence indicators, function conversion), '
+         '13 malformed collation strings and 28 lookup sources are included. Known finding C03-recursion-depth.',
     technique='SMT-based symbolic execution (CrossHair/z3): exception-freedom of enumerated templates on symbolic arguments; symbolic lexeme bodies',
     design='DESIGN.md §4 C03')
 CHECKS['C17'] = dict(
@@ -212,7 +218,7 @@ CHECKS['C17'] = dict(
          'quote/backslash, ASCII, BMP, surrogates, astral); the XML code-point predicate used by the serializer. API-level round trips '
          '(parse-json(serialize(v)), xml-to-json(json-to-xml(t))) are run as bug-hunting only.',
     note='Trusted: CrossHair str/json models. Out (stated): XML round trip parse-xml(serialize(node)) (expat is C code on bytes), JSON '
-         'value round trips beyond bug-hunting, number formatting of decimals and doubles.',
+         'value round trips beyond the table of 22 JSON texts (x base URI) and bug-hunting, number formatting of decimals.',
     technique='SMT-based symbolic execution (CrossHair/z3) of the JSON escape/unescape kernels vs an independent decoder',
     design='DESIGN.md §4 C17')
 CHECKS['C19'] = dict(
@@ -223,7 +229,8 @@ CHECKS['C19'] = dict(
          'the initial one, the exception (if any) is an ElementPathError, the second result equals the one obtained alone, and '
          'os.environ is unchanged; 4 histories with the INITIAL process locale chosen by the solver from 5. environment-variable() and '
          'available-environment-variables() are empty for every symbolic name. Entity declarations behind up to 140 000 characters of '
-         'prolog are rejected (bug-hunting: expat is C code).',
+         'prolog are rejected (bug-hunting: expat is C code). The decimal context is unchanged by format-number/round/sum on 39-digit '
+         'decimals; after a concrete history of regexes that subtract from negated escapes, independent matches answer as on a fresh process.',
     note='Trusted: the locale stub implements the documented setlocale/getlocale contract; CrossHair is single-threaded. Out '
          '(stated): thread interleavings of independent Selectors, entity expansion in fn:parse-xml (expat, C code), the real C locale '
          'library, the decimal context.',
